@@ -172,6 +172,27 @@ def run(ctx):
                        "bucket_count() of the head table is added into an element count: the default-constructed "
                        "placeholder head has 16 buckets and can hold no element (size() is 16 too large after growth)",
                        site="%s@placeholder-count" % inst)
+            if fn.name == "total_size":
+                # R2c a table is counted (by capacity when a successor exists, by its counter when it is the last) as the node
+                # whose `next` was just examined: the walking pointer is not advanced between that load and the count
+                nl = [a.node for a in A.atomic_ops(ig, live) if a.op == "load" and strip_cast(a.obj).get("n") == "next"]
+                cnts = [n for n in ig.ev_nodes() if n.id in live and n.ev["e"] == "call" and n.ev.get("name") in ("bucket_count", "size") and
+                        isinstance(base_of_field(ig.rthis(n), "table"), dict) and base_of_field(ig.rthis(n), "table").get("k") in ("p", "l")]
+                okc = bool(nl) and bool(cnts)
+                for c_ in cnts:
+                    var = base_of_field(ig.rthis(c_), "table")
+                    adv = [n for n in ig.ev_nodes() if n.id in live and n.ev["e"] == "asg" and n.ev.get("op") == "=" and
+                           pstr(strip_cast(n.ev.get("lhs"))) == pstr(var)]
+                    same = [l_ for l_ in nl if pstr(base_of_field(ig.rthis(l_), "next")) == pstr(var)]
+                    if not same:
+                        okc = False
+                    for l_ in same:
+                        if any(ig.path_exists(l_, a_, avoiding=[l_]) and ig.path_exists(a_, c_, avoiding=[l_], strict=False) for a_ in adv):
+                            okc = False
+                ctx.ob("C18.R2c", inst, okc, fn.loc,
+                       "total_size must count the table whose successor it has just looked at: with the walking pointer advanced between "
+                       "the load of next and the count, the first chained table is skipped and the last one is counted twice",
+                       site="%s@count-the-examined-table" % inst)
             if fn.name == "empty":
                 looks_further = bool(next_loads) or any(True for _ in L.call_nodes(ig, name="size", live=live)
                                                         if TRANS.match(_.ev.get("rec", "") or ""))
